@@ -874,7 +874,10 @@ def main(run):
                 "three chapters and sub-chapters at length 3 (quick) / 4 (thorough); random histories of length 0..12 with 0..3 chapters, sub-chapters, "
                 "explicit/default headers, log_header off, colliding field names, in- and out-of-range indices, all slice shapes incl. step 0, pickle "
                 "protocols 0..5 and deepcopy; 15% of the random histories use different chapter names per record (no stream there). "
-                "Statistics/MultiStatistics: random register/compile sequences with frozen positional and keyword arguments and call-recording functions. "
+                "A corpus runs first: the known-finding witness, the histories on which the unchanged tree failed before the fix commits, a deep tree. "
+                "Every history generated with uniform chapter names is also checked against the theorems' hypothesis (uniformb). "
+                "Statistics/MultiStatistics: random register/compile sequences with frozen positional and keyword arguments and call-recording functions; "
+                "generation loops logbook.record(id=g, **mstats.compile(pop)). "
                 "A case is one history (distinct by its operation list); non-trivial = at least one record entered / one compile.")
     run.trusted += ["Coq 8.16.1 kernel and vm_compute",
                     "hand-written model coq/Model/C18_Logbook.v tied by correspondence (harness/c18.py): after every operation the outcome, "
